@@ -1425,6 +1425,23 @@ class Guard:
     def exprs(self):
         return [x for x in (self.a, self.b) if x is not None]
 
+    def alts(self):
+        """Other spellings of the same fact on the same edge (helper view, enum equality <-> variant test)."""
+        x = self.alt
+        n = 0
+        while x is not None and n < 6:
+            yield x
+            x = x.alt
+            n += 1
+
+    def add_alt(self, g2):
+        x = self
+        n = 0
+        while x.alt is not None and n < 6:
+            x = x.alt
+            n += 1
+        x.alt = g2
+
     def mentions(self, pred):
         return any(mentions(e, pred) for e in self.exprs())
 
@@ -1497,7 +1514,55 @@ def _bool_guard(e, truth, **kw):
     return Guard("bool", a=e, truth=truth, **kw)
 
 
+def _fieldless(prog, enum, v):
+    a = prog.adts.get(enum)
+    if a is None:
+        return None
+    for x in a["variants"]:
+        if x["name"] == v:
+            return not x["fields"]
+    return None
+
+
+def _enum_alts(prog, g):
+    """`x == Enum::V` (derived PartialEq on a fieldless variant) and `match x { Enum::V => .. }` are one fact: give each guard the
+    other spelling as an alternative, so a rule written against one form holds on the other."""
+    def unwrap_dv(e):
+        if e[0] == "call" and (e[1] or "").endswith("intrinsics::discriminant_value") and len(e[2]) == 1:
+            return e[2][0]
+        return e
+    if g.kind == "rel" and g.op in ("Eq", "Ne"):
+        a, b = unwrap_dv(g.a), unwrap_dv(g.b)
+        for x, y in ((a, b), (b, a)):
+            if y[0] == "agg" and not y[3] and x[0] != "agg" and _fieldless(prog, y[1], y[2]):
+                vs = [n_ for _, n_ in prog.enum_variants(y[1])]
+                if g.op == "Eq":
+                    return [Guard("is", a=x, name=y[2], enum=y[1], edge=g.edge, line=g.line, macros=g.macros)]
+                rest = [n_ for n_ in vs if n_ != y[2]]
+                if len(rest) == 1:
+                    return [Guard("is", a=x, name=rest[0], enum=y[1], edge=g.edge, line=g.line, macros=g.macros)]
+                return [Guard("isnot", a=x, name=(y[2],), enum=y[1], edge=g.edge, line=g.line, macros=g.macros)]
+    if g.kind == "is" and g.enum and g.enum != "try" and _fieldless(prog, g.enum, g.name):
+        return [Guard("rel", op="Eq", a=g.a, b=("agg", g.enum, g.name, ()), edge=g.edge, line=g.line, macros=g.macros)]
+    return []
+
+
 def switch_guards(body, sym, blk):
+    out = _switch_guards(body, sym, blk)
+    for _, g in out:
+        try:
+            for x in [g] + list(g.alts()):
+                ex = _enum_alts(body.prog, x)
+                if ex:
+                    for e2 in ex:
+                        g.add_alt(e2)
+                    break
+        except Exception:
+            pass
+    return out
+
+
+def _switch_guards(body, sym, blk):
     """For the switch terminating `blk`: list of (target_block, Guard)."""
     t = body.blocks[blk].term
     if t.kind != "switch":
@@ -1575,8 +1640,8 @@ class GuardIndex:
         for blk, lst in self.by_switch.items():
             for tgt, g in lst:
                 yield g
-                if g.alt is not None:
-                    yield g.alt
+                for x in g.alts():
+                    yield x
 
     def dominating(self, block, include_tracing=False, _depth=0):
         """Guards whose edge every path entry->block takes. Bool temporaries defined by
@@ -1600,8 +1665,7 @@ class GuardIndex:
                 if body.edge_dominates((sblk, tgt), block):
                     if len(gs) == 1:
                         out.append(gs[0])
-                        if gs[0].alt is not None:
-                            out.append(gs[0].alt)
+                        out.extend(gs[0].alts())
                         out.extend(self._resolve_bool_temp(gs[0], _depth))
                     else:
                         # several values lead here: a disjunction, keep as 'oneof'
@@ -1613,8 +1677,7 @@ class GuardIndex:
     def implied(self, g):
         """g together with what it implies: the helper view and, for bool temporaries, the guards of the defining arm(s)."""
         out = [g]
-        if g.alt is not None:
-            out.append(g.alt)
+        out.extend(g.alts())
         out.extend(self._resolve_bool_temp(g, 0))
         return out
 
@@ -1662,8 +1725,7 @@ class GuardIndex:
                     g2 = _bool_guard(e, g.truth, edge=g.edge, line=g.line, macros=g.macros)
                     if g2 is not None and not (g2.kind == "bool" and g2.a == g.a):
                         extra.append(g2)
-                        if g2.alt is not None:
-                            extra.append(g2.alt)
+                        extra.extend(g2.alts())
                         extra.extend(self._resolve_bool_temp(g2, depth + 1))
                 except Exception:
                     pass
